@@ -34,7 +34,9 @@ Definition L35 x := COr (OXor x).
 (* ------------------------------------------------------------------ agree *)
 Definition agree (k : case) : bool :=
   match k with
-  | CRead rsv bbs m obs => bool_decide (read (list_to_set rsv) bbs m = obs)
+  | CRead rsv bbs m obs =>
+      (* every identifier of the AST is a token of the text (precondition of the model's freshness argument) *)
+      bool_decide ((list_to_set (module_ids m) : gset string) ⊆ list_to_set rsv) && bool_decide (read (list_to_set rsv) bbs m = obs)
   | CParse ts obs => bool_decide (er_cond <$> parse_all ts = obs)
   end.
 
@@ -83,7 +85,7 @@ Definition dep_ids (d : driver) : list string :=
   match d with DAssign e => ids_cond e | DPrim _ ins => ins ≫= ids_cond end.
 Definition dep_graph (m : vmodule) : circuit :=
   list_to_map ((λ nd : string * driver, (nd.1, mk_node Buf false (sset (dep_ids nd.2)))) <$> drivers m).
-Definition in_subset (rsv : gset string) (bbs : list bbdef) (m : vmodule) : bool :=
+Definition in_subset (bbs : list bbdef) (m : vmodule) : bool :=
   forallb (λ it, match it with IInst mn insts => forallb (inst_ok bbs mn) insts && negb (bool_decide (insts = []))
                           | IAssign l => negb (bool_decide (l = []))
                           | IInput l | IOutput l | IWire l => negb (bool_decide (l = [])) end) (m_items m) &&
@@ -93,9 +95,8 @@ Definition in_subset (rsv : gset string) (bbs : list bbdef) (m : vmodule) : bool
   bool_decide (sset (((drivers m).*1 ++ (bbout_nets bbs m).*2)%list) ## sset (decl_inputs m)) &&
   (* every output is a net of some statement *)
   bool_decide (sset (decl_outputs m) ⊆ sset (used_nets m)) &&
-  (* nets are not named like pin nodes; every identifier is a token of the text *)
+  (* nets are not named like pin nodes *)
   forallb (λ x, forallb (λ p, negb (bool_decide (pin x.1.1 p ∈ sset (module_nets m)))) (elements (bb_in x.1.2 ∪ bb_out x.1.2))) (bb_insts bbs m) &&
-  bool_decide (sset (module_ids m) ⊆ rsv) &&
   (* combinational loops have no functional meaning *)
   (let dg := dep_graph m in check_rank dg (quick_ranks dg)).
 
@@ -186,7 +187,7 @@ Definition holds (k : case) : bool :=
   match k with
   | CRead rsv bbs m obs =>
       if negb (ports_match m) then match obs with Raise _ => true | _ => false end     (* never silently accepted *)
-      else if in_subset (list_to_set rsv) bbs m then match obs with Ok C => denotes bbs m C | _ => false end
+      else if in_subset bbs m then match obs with Ok C => denotes bbs m C | _ => false end
       else true
   | CParse _ _ => true
   end.
